@@ -73,9 +73,8 @@ func (l *Lexer) NextToken() token.Token {
 	l.skipWhitespace()
 
 	// skip single-line comments
-	if l.ch == rune('/') && l.peekChar() == rune('/') {
+	for l.ch == rune('/') && l.peekChar() == rune('/') {
 		l.skipComment()
-		return (l.NextToken())
 	}
 
 	switch l.ch {
